@@ -20,7 +20,7 @@ import weakref
 from .seqlib import exc_name
 
 NAMES = ["value", "mate", "child", "kids", "byname", "group", "trait_added", "trait_modified",
-         "extra", "xchild", "items", "nosuch", "ichild", "nchild", "tkids"]
+         "extra", "xchild", "items", "nosuch", "ichild", "nchild", "tkids", "l2", "adhoc"]
 NONE_ID = 99
 INT_FIELDS = ("value", "extra")
 
@@ -223,11 +223,14 @@ def base(hid):
 
 
 class World:
-    def __init__(self, n, dflts, classes=None):
+    def __init__(self, n, dflts, classes=None, fresh_class=False):
         _INDEX.clear()
         _DEFAULT.clear()
         _EQ.clear()
         Node = node_class()
+        if fresh_class:
+            # an ad-hoc attribute defines a trait on the concrete CLASS: one class per case
+            Node = type("NodeX", (Node,), {})
         self.n = n
         self.pool = [Node() for _ in range(n)]
         self.objs = {}          # identity -> real object (pool objects and containers, strong)
@@ -339,6 +342,11 @@ class World:
                 ns = (t._notifiers(False) or []) if t is not None else []
                 ns = [x for x in ns if isinstance(x, (TraitEventNotifier, ObserverChangeNotifier))]
                 out.append(("%d.%s" % (i, name), ("t", i, name), ns))
+            for name in o._instance_traits():
+                if name not in o.traits():          # "<name>_items" companions of added containers
+                    ns = [x for x in (o._trait(name, 0)._notifiers(False) or [])
+                          if isinstance(x, (TraitEventNotifier, ObserverChangeNotifier))]
+                    out.append(("%d.%s" % (i, name), ("t", i, name), ns))
         for c in sorted(self.declared):
             x = self.objs.get(c)
             if x is None or c < 100:
@@ -521,6 +529,8 @@ def _hit(sig, what, **kw):
 
 SIG_F10 = "stale-hook:mutated-link-reachable-through-itself"
 SIG_F14 = "stale-hook:default-evaluated-silently-on-first-assignment"
+SIG_ITEMS = "stray-notifier:items-trait-hooked-by-trait_added"
+SIG_ADHOC = "unhooked-trait:ad-hoc-attribute-defined-through-another-instance"
 SIG_F4 = "registration-not-rolled-back:completed-sibling-subtree"
 SIG_F4_TOP = "registration-not-rolled-back:completed-sibling-graph"
 SIG_F4_RM = "removal-not-rolled-back:completed-sibling-subtree"
@@ -533,7 +543,9 @@ class Runner:
         _, n, dflts, ops = case.lstrip("#").split("|")
         ents = [x.strip() for x in dflts.split(",")]
         classes = [int(e.split("~")[1]) if "~" in e else i for i, e in enumerate(ents)]
-        self.w = World(int(n), [parse_ref(e.split("~")[0]) for e in ents], classes)
+        self.w = World(int(n), [parse_ref(e.split("~")[0]) for e in ents], classes,
+                       fresh_class=any(o.strip().startswith("adhoc ") for o in ops.split(";")))
+        self.known_cause = None      # exact signature of a recorded finding this history ran into
         self.eq_case = len(set(classes)) < len(classes)
         self.ops = [o.strip() for o in ops.split(";") if o.strip()]
         self.ledger = collections.Counter()    # (hid, root, graph) -> active registrations
@@ -553,7 +565,7 @@ class Runner:
         if name in ("child", "mate"):
             r = _DEFAULT.get(id(o))
             return None if r is None else r()
-        return {"value": 0, "extra": 0, "kids": [], "tkids": [], "byname": {}, "group": set()}.get(name)
+        return {"value": 0, "extra": 0, "kids": [], "tkids": [], "l2": [], "byname": {}, "group": set()}.get(name)
 
     def container(self, ident, cls):
         x = self.w.objs.get(ident)
@@ -727,7 +739,11 @@ class Runner:
             o = w.pool[int(p[1])]
             name = p[2]
             md = TAG_CODES[int(p[3])]
-            o.add_trait(name, Int(**md) if name == "extra" else Instance(HasTraits, **md))
+            if name == "l2":
+                from traits.api import List
+                o.add_trait(name, List(Instance(HasTraits), **md))
+            else:
+                o.add_trait(name, Int(**md) if name == "extra" else Instance(HasTraits, **md))
             return
         if k in ("la", "li", "ld", "ls", "lc", "le", "lsl", "lst"):
             c = self.container(int(p[1]), TraitList)
@@ -780,6 +796,10 @@ class Runner:
                 c.discard(w.real(int(p[2])))
             else:
                 c.clear()
+            return
+        if k == "adhoc":
+            # an attribute that is no declared trait: HasTraits defines a trait for it on the class
+            setattr(w.pool[int(p[1])], "adhoc", int(p[2]))
             return
         if k == "kill":
             hid = int(p[1])
@@ -912,7 +932,7 @@ class Runner:
             for kk, n in self.ledger.items():
                 by_canon[(kk[0], kk[1], canon(kk[2]))] += n
             if all(by_canon[kc] >= n for kc, n in collections.Counter(keys).items()) and keys:
-                self.hits09.append(_hit("registered-removal-not-found",
+                self.hits09.append(_hit(self.known_cause or "registered-removal-not-found",
                                         "unregistering an active registration raised NotifierNotFound", op=op))
         return "err " + exc_name(exc)
 
@@ -1034,7 +1054,9 @@ class Runner:
         return not (self.tainted or self.stale)
 
     def reach_hit(self, kind, what):
-        if self.selfreach:
+        if self.known_cause:
+            sig = self.known_cause
+        elif self.selfreach:
             sig = SIG_F10
         elif self.shadow_default:
             sig = SIG_F14
@@ -1061,6 +1083,11 @@ class Runner:
         if spec != pop:
             extra = sorted(str(k) + "*%d" % n for k, n in (pop - spec).items())[:4]
             missing = sorted(str(k) + "*%d" % n for k, n in (spec - pop).items())[:4]
+            ek, mk = list((pop - spec).keys()), list((spec - pop).keys())
+            if ek and not mk and all(k[0][0] == "t" and k[0][2].endswith("_items") and k[0][2] != "items" for k in ek):
+                self.known_cause = SIG_ITEMS
+            elif mk and not ek and all(k[0][0] == "t" and k[0][2] == "adhoc" for k in mk):
+                self.known_cause = SIG_ADHOC
             self.reach_hit("notifier-population", "notifiers differ from the from-scratch walk: extra %s missing %s" % (
                 extra, missing))
 
@@ -1172,7 +1199,7 @@ class Runner:
                 # are the from-scratch ones
                 self.hits09.append(dict(self.hits08[-1]))
             if not self.ledger and not self.tainted and not self.selfreach and not self.shadow_default and pop:
-                self.hits09.append(_hit("residual-notifiers-after-balanced-removal",
+                self.hits09.append(_hit(self.known_cause or "residual-notifiers-after-balanced-removal",
                                         "every registration was removed but notifiers remain",
                                         after_op=op, population=nstr))
                 self.tainted = True
@@ -1382,6 +1409,11 @@ class Gen:
             o2, name = r.choice(sorted(self.added))
             if name == "extra":
                 return "seti %d extra %d" % (o2, r.randint(1, 5))
+            if name == "l2":
+                c = self.fresh()
+                self.conts[c] = "l"
+                self.attached[(o2, "l2")] = c
+                return "setl %d l2 %d %s" % (o2, c, show_ids(self.items()))
             return "set %d %s %s" % (o2, name, "N" if r.random() < 0.15 else str(self.obj()))
         # container mutations: mostly attached containers, sometimes detached ones
         cs = sorted(self.conts)
@@ -1980,9 +2012,15 @@ def history_filt(rng, maxops=12):
                 g.ops.append("setl %d tkids %d %s" % (o, c3, show_ids(its)))
                 g.ops.append("la %d %d" % (c3, g.obj()))
         elif x < 0.60:
-            name = rng.choice(["xchild", "xchild", "extra", "items"])
+            name = rng.choice(["xchild", "xchild", "extra", "items", "l2", "l2"])
             g.ops.append(addt(o, name))
-            if name != "extra" and rng.random() < 0.7:
+            if name == "l2":
+                c = g.fresh()
+                if (o, "l2") not in g.attached:
+                    g.conts[c] = "l"
+                    g.attached[(o, "l2")] = c
+                    g.ops += ["get %d l2 %d" % (o, c), "la %d %d" % (c, g.obj())]
+            elif name != "extra" and rng.random() < 0.7:
                 g.ops.append("set %d %s %d" % (o, name, g.obj()))
         elif x < 0.72:
             g.ops.append("set %d %s %s" % (o, rng.choice(["mate", "mate", "child"]),
@@ -1990,3 +2028,25 @@ def history_filt(rng, maxops=12):
         else:
             g.ops.append(g.mutation())
     return "obs|%d|%s|" % (n, ",".join(dflts)) + ";".join(g.ops[:maxops + 2])
+
+
+def adhoc_cases(rng, k):
+    """Implementation + oracle only (`#`): an ad-hoc attribute first assigned on ONE instance
+    defines its trait on the class; assigned later on another observing instance it fires no
+    trait_added there (finding, signature SIG_ADHOC)."""
+    for _ in range(k):
+        n = rng.choice([3, 4])
+        a, b = rng.sample(range(n), 2)
+        e = rng.choice([("any", True), ("any", False), seq(t("child"), ("any", True))])
+        es = " ".join(rpn_of(e))
+        ops = []
+        if e[0] == "then":
+            ops += ["set 0 child %d" % a, "set 1 child %d" % b]
+            ra, rb = 0, 1
+        else:
+            ra, rb = a, b
+        ops += ["obs 0 %d %s" % (ra, es), "obs 0 %d %s" % (rb, es), "adhoc %d 1" % a]
+        if rng.random() < 0.5:
+            ops.append(rng.choice(["set %d mate %d" % (a, b), "adhoc %d 2" % a]))
+        ops += ["adhoc %d 2" % b, "unobs 0 %d %s" % (rb, es), "unobs 0 %d %s" % (ra, es)]
+        yield "#obs|%d|%s|%s" % (n, ",".join(["N"] * n), ";".join(ops))
